@@ -90,9 +90,33 @@ def run(tier, seed):
                     "base_program": checklib.strip_meta(dict(base, obs=[])), "strat_program": checklib.strip_meta(dict(strat, obs=[]))})
         strat["obs"] = obs
         progs.append(strat)
+    # proportionate mixing: a full stratification whose mixing matrix has every row equal to the population split;
+    # along the trajectory started from the split population the aggregate is the unstratified trajectory
+    # (models without entry flows: births are shared evenly, not by the split)
+    for i in range(max(6, n // 6)):
+        r = g.rng
+        base = g.program({"nstrat": 0, "requests": False, "state_rates": False, "nsteps": r.choice([2, 3]), "nonlinear": True,
+                          "h": r.choice(["1/4", "1/8", "1/2"]), "kind_pool": ["transition", "transition", "death"], "p_udeath": 0.3})
+        if not any(o["op"] == "flow" and o["kind"] == "infection_frequency" for o in base["ops"]):
+            continue
+        base["ops"] += [{"op": "req", "name": "allcomp", "save": True, "req": {"type": "comp", "names": list(base["comps"]), "filt": {}}}]
+        strata = r.choice([["lo", "hi"], ["a1", "a2", "a3"]])
+        split = r.choice([["1/4", "3/4"], ["1/8", "7/8"], ["5/8", "3/8"]]) if len(strata) == 2 else r.choice([["1/8", "1/8", "3/4"], ["1/2", "1/4", "1/4"]])
+        so = {"op": "strat", "kind": "plain", "name": "grp", "strata": strata, "comps": list(base["comps"]), "fadj": [], "iadj": {},
+              "split": dict(zip(strata, split)), "mix": [list(split) for _ in strata]}
+        strat = copy.deepcopy(base)
+        reqs = [o for o in strat["ops"] if o["op"] == "req"]
+        strat["ops"] = [o for o in strat["ops"] if o["op"] != "req"] + [so] + reqs
+        strat["meta"] = dict(base.get("meta", {}), strats=["proportionate"], mix=1)
+        pv = g.params_values(small=True)
+        strat["obs"] = [{"obs": "struct"}, {"obs": "oracle", "name": "c03", "params": pv, "seed": seed + i, "new_strats": ["grp"], "states": 0,
+                         "strain_only": False, "proportionate": True, "discontinuous": '"pw"' in json.dumps(base["ops"]),
+                         "base_program": checklib.strip_meta(dict(base, obs=[])),
+                         "strat_program": checklib.strip_meta(dict(strat, obs=[]))}]
+        progs.append(strat)
     out = []
     for p, st in with_struct(progs):
-        if st is not None:
+        if st is not None and not any(o.get("proportionate") for o in p["obs"]):
             nc = len(st["comps"])
             p["obs"].insert(1, {"obs": "onestep", "params": p["obs"][-1]["params"], "t": gen.dy(g.rng, 0, 16, 2),
                                 "x": fix_domain(p, st["comps"], g.state(nc, "pos"))})
@@ -100,7 +124,7 @@ def run(tier, seed):
     ex = checklib.explore(out, keys=KEYS, per_prog_timeout=40.0)
     nontrivial = {checklib.signature(p) for p, a in zip(out, ex["mres"]) if a.get("build_error") is None}
     return {"programs": out, "explore": ex, "distinct_nontrivial": len(nontrivial),
-            "rule": "base models over all flow kinds (absolute, import and birth flows included), optionally already stratified "
+            "rule": "(plus full stratifications with a proportionate mixing matrix - rows equal to the split - compared along the trajectory from the split population) base models over all flow kinds (absolute, import and birth flows included), optionally already stratified "
                     "with adjustments, extended by 1-2 unadjusted stratifications (full, partial on a random subset, age, strain "
                     "on the infected compartments) with splits summing to one; the stratified program is compared with the model; "
                     "on the implementation stratified vs unstratified: comp_rates and per-name flow rates at 3 (quick) / 6 "
